@@ -214,6 +214,9 @@ func checkC03(P *Prog, r *Result) {
 	P.checkStructWritesByField(r)
 	P.checkPointerAlloc(r)
 	P.checkFieldNameRule(r, "C03/field-name-rule")
+	// the record the fields are read from is the input: a map of a named type that failed the plain-map assertion is
+	// converted, not replaced by the assertion's zero value (C14's rule) - else every leaf stays untouched, silently
+	shareRule(P, r, checkC14, "C14/provider-from-checked-value", nil, "C03/input-record-not-dropped", 1)
 	// with no issues reported a leaf holds the coercion of *its* input: a catch value replaces it only when that
 	// node itself failed, never because Exit / CanCatch were left set by a sibling or an earlier element (C05's rule)
 	shareRule(P, r, checkC05, "C05/confinement", nil, "C03/catch-value-only-on-own-failure", 10)
@@ -1544,15 +1547,43 @@ func (P *Prog) checkFieldNameRule(r *Result, rule string) {
 			u := u
 			u.with(func() {
 				eachInstr(u.fn, func(b *ssa.BasicBlock, _ int, in ssa.Instruction) {
-					bo, ok := in.(*ssa.BinOp)
-					if !ok || bo.Op != token.SUB {
+					// the upper-casing site: `key[0] - 32`, or strings.ToUpper of the key's first byte (`key[:1]`),
+					// which under the same guard is the same byte
+					var str ssa.Value
+					switch x := in.(type) {
+					case *ssa.BinOp:
+						if x.Op != token.SUB {
+							return
+						}
+						if k, isK := constInt(x.Y); !isK || k != 32 {
+							return
+						}
+						str = firstByteOf(x.X)
+					case *ssa.Call:
+						ci := callOf(x)
+						if ci.static == nil || len(x.Call.Args) != 1 {
+							return
+						}
+						switch ci.static.String() {
+						case "strings.ToUpper":
+							arg := cv(x.Call.Args[0])
+							if sl, ok := arg.(*ssa.Slice); ok {
+								if hi, isK := constInt(sl.High); isK && hi == 1 {
+									if lo, isL := constInt(sl.Low); sl.Low == nil || (isL && lo == 0) {
+										if bt, isB := sl.X.Type().Underlying().(*types.Basic); isB && bt.Info()&types.IsString != 0 {
+											str = cv(sl.X)
+										}
+									}
+								}
+							} else if cvt, ok := arg.(*ssa.Convert); ok {
+								str = firstByteOf(cvt.X)
+							}
+						case "unicode.ToUpper":
+							str = firstByteOf(x.Call.Args[0])
+						}
+					default:
 						return
 					}
-					if k, isK := constInt(bo.Y); !isK || k != 32 {
-						return
-					}
-					str := firstByteOf(bo.X)
-
 					if str == nil {
 						return
 					}
